@@ -83,6 +83,9 @@ class CallMixin:
 
     def arg_wants(self, f, n):
         c = None
+        if f.ty is T.FUN and isinstance(f.z, BoundBuiltin) and f.z.name == "update" and \
+                isinstance(f.z.recv.ty, T.DictT):
+            return [f.z.recv.ty] + [None] * max(0, len(n.args) - 1)      # d.update(x): x is expected to look like d
         if f.ty is T.FUN and isinstance(f.z, FunV) and f.z.kind == "contract":
             c = self.contracts.get(f.z.key)
         elif f.ty is T.PY:
@@ -126,6 +129,10 @@ class CallMixin:
                     raise Unsupported(f"no contract for {fz.key}", n)
                 a = ([fz.self_v] if getattr(fz, "self_v", None) is not None else []) + list(args)
                 yield from self.call_contract(c, a, kwargs, st, sink, n)
+                return
+            if fz.kind == "inline":
+                a = ([fz.self_v] if getattr(fz, "self_v", None) is not None else []) + list(args)
+                yield from self.inline_call(fz.key, a, kwargs, st, sink, n)
                 return
             if fz.kind == "partial":
                 kw = dict(fz.kwargs)
@@ -183,10 +190,107 @@ class CallMixin:
                         return
                     yield from self.call_contract(ci, args, kwargs, st, sink, n)
                     return
+            ikey = self.inline_key_for_pyobj(obj)
+            if ikey is not None:
+                yield from self.inline_call(ikey, list(args), kwargs, st, sink, n)
+                return
             raise Unsupported(f"call of {getattr(obj, '__qualname__', obj)!r} has neither contract nor rule", n)
         if f.ty is EXC:
             raise Unsupported("calling an exception value", n)
         raise Unsupported(f"call of value of type {f.ty}", n)
+
+    # ------------------------------------------------------------------ helpers without a contract: inlined
+    def inline_key_for_pyobj(self, obj):
+        """a plain function of the package under verification that has no contract: 'module:qualname' when its
+        definition can be found in the source tree, else None"""
+        obj = getattr(obj, "__wrapped__", obj)            # functools.lru_cache / wraps
+        mod, qn = getattr(obj, "__module__", None), getattr(obj, "__qualname__", None)
+        if not (inspect.isfunction(obj) and mod and qn and mod.split(".")[0] == self.package and "<" not in qn):
+            return None
+        try:
+            node = self.front.find(f"{mod}:{qn}", missing_ok=True)
+        except Exception:
+            return None
+        return f"{mod}:{qn}" if isinstance(node, ast.FunctionDef) else None
+
+    INLINE_DEPTH = 3
+
+    def inline_call(self, key, args, kwargs, st, sink, n):
+        """A callee without a contract is not trusted and not skipped: its real body is executed symbolically in the
+        caller's context (so the caller's obligations cover it). Subset: plain `def` with positional/keyword
+        parameters, no generator, no nested def, loops only where the engine can cut or unroll them without an
+        invariant, nesting <= INLINE_DEPTH, and no in-place mutation of a value-typed argument.
+        functools.lru_cache on such a helper is treated as transparent (recorded as an assumption)."""
+        depth = st.meta.get("inline_depth", 0)
+        if depth >= self.INLINE_DEPTH:
+            raise Unsupported(f"inlining of {key}: nesting deeper than {self.INLINE_DEPTH}", n)
+        if st.binder and st.mode != "spec":
+            raise Unsupported(f"call of {key} (no contract) inside a comprehension / generator body", n)
+        node = self.front.find(key)
+        a = node.args
+        if a.vararg or a.kwarg or a.posonlyargs or a.kwonlyargs:
+            raise Unsupported(f"inlining of {key}: * / ** / keyword-only parameters", n)
+        for sub in ast.walk(node):
+            if isinstance(sub, (ast.Yield, ast.YieldFrom, ast.Await, ast.Global, ast.Nonlocal)) or \
+                    (isinstance(sub, (ast.FunctionDef, ast.AsyncFunctionDef, ast.ClassDef)) and sub is not node):
+                raise Unsupported(f"inlining of {key}: {type(sub).__name__} in the body", n)
+        for d in node.decorator_list:
+            txt = ast.unparse(d)
+            if "lru_cache" in txt or txt in ("cache", "functools.cache"):
+                self.dropped.add(f"lru_cache on inlined helper {key} (treated as transparent)")
+            elif txt not in ("staticmethod",):
+                raise Unsupported(f"inlining of {key}: decorator {txt}", n)
+        names = [p_.arg for p_ in a.args]
+        if len(args) > len(names) or any(k not in names for k in kwargs):
+            raise Unsupported(f"inlining of {key}: arguments do not match the parameters", n)
+        env = dict(zip(names, args))
+        for k, v in kwargs.items():
+            if k in env:
+                raise Unsupported(f"inlining of {key}: parameter {k} given twice", n)
+            env[k] = v
+        saved = (self.globals_of_current, self.current_key_for_nested, self.loop_ordinal, self.cut_at,
+                 self.loop_counter)
+        self.globals_of_current = self.front.module_globals(key)
+        self.current_key_for_nested = key
+        # loops of the helper get ordinals no contract names: they are cut with the empty invariant (sound, weak)
+        from .front import loops_in_order
+        self.loop_ordinal = {id(l): 1000 * (depth + 1) + i for i, l in enumerate(loops_in_order(node))}
+        self.cut_at, self.loop_counter = {}, 0
+        self.called.add("inlined:" + key)
+        try:
+            ndef = len(a.defaults)
+            for i, nm in enumerate(names):
+                if nm in env:
+                    continue
+                j = i - (len(names) - ndef)
+                if j < 0:
+                    raise Unsupported(f"inlining of {key}: missing argument {nm}", n)
+                dsink = []
+                rs = list(self.evx(a.defaults[j], st.clone(env={}), dsink))
+                if len(rs) != 1 or dsink:
+                    raise Unsupported(f"inlining of {key}: default of {nm}", n)
+                env[nm] = rs[0][1]
+            entry_env = dict(env)
+            st_in = st.clone(env=env).set_meta("inline_depth", depth + 1).set_meta("inline_want", st.meta.get("want"))
+            from .front import strip_docstring
+            outs = list(self.exec_block(strip_docstring(node.body), st_in))
+        finally:
+            (self.globals_of_current, self.current_key_for_nested, self.loop_ordinal, self.cut_at,
+             self.loop_counter) = saved
+        for o in outs:
+            for nm, v0 in entry_env.items():
+                v1 = o.st.env.get(nm)
+                if v1 is not None and isinstance(v0.ty, (T.ListV, T.ListT, T.DictT, T.SetT, T.MapT)) and \
+                        not (v1.ty is v0.ty and v1.z.eq(v0.z)):
+                    raise Unsupported(f"inlining of {key}: the helper rebinds or mutates its argument {nm}", n)
+            back = o.st.clone(env=st.env).set_meta("inline_depth", depth).set_meta(
+                "inline_want", st.meta.get("inline_want")).set_meta("want", st.meta.get("want"))
+            if o.kind in ("next", "return"):
+                yield back, (o.val if o.kind == "return" and o.val is not None else self.lift(None))
+            elif o.kind == "raise":
+                sink.append((back, o.val))
+            else:
+                raise Unsupported(f"inlining of {key}: {o.kind} outside a loop", n)
 
     def call_lambda(self, fz, args, st, sink, n):
         lam = fz.node
